@@ -8,26 +8,15 @@
      writable d   every table the writer looks at has distinct keys, keys are printable ASCII without '=' not starting
                   with '#' or '[', values are: well-formed UTF-8 strings without quote, backslash, LF and not spelled
                   true/false (CR, '#', blanks, any Unicode allowed); booleans; 64-bit ints; finite floats
-     cm_ok cm     inline comments are ASCII without LF  (PARTIAL: non-ASCII comments are covered by the correspondence
-                  check only; C20_full below is the statement for arbitrary LF-free comments) *)
+     cm_ok cm     inline comments are arbitrary byte strings without LF *)
 From Coq Require Import ZArith List.
 From FV Require Import Models.Toml Proofs.TomlBasics Proofs.TomlLine Proofs.TomlFile Proofs.TomlMisc.
 Import ListNotations.
 Open Scope Z_scope.
 
-(* the full statement: as C20_roundtrip_partial but for every comment map without line feeds *)
-Definition C20_full : Prop :=
-  forall (F : Type) (fmt_f : F -> bytes) (parse_f : bytes -> option F) (fin : F -> Prop),
-    (forall x, fin x -> Forall num_byte (fmt_f x) /\ fmt_f x <> []) ->
-    (forall x, fin x -> parse_f (fmt_f x) = Some x) ->
-    (forall x, fin x -> ~ In 46 (fmt_f x) -> parse_f (fmt_f x ++ s_dot0) = Some x) ->
-    forall cm : comments, (forall s k c, cm s k = Some c -> ~ In 10 c) ->
-    forall d : data F, writable F fin d -> known_sections F d -> default_not_empty F d ->
-    exists d', parse_file F parse_f (write F fmt_f cm d) = Some d' /\ forall s, assoc s d' = assoc s d.
-
-(* Round trip, any key order the writer's map iteration produces (the order of the lists), any ASCII comments:
+(* Round trip, any key order the writer's map iteration produces (the order of the lists), any LF-free comments:
    the reader returns exactly the written tables, listed in the writer's section order. *)
-Theorem C20_roundtrip_partial :
+Theorem C20_roundtrip :
   forall (F : Type) (fmt_f : F -> bytes) (parse_f : bytes -> option F) (fin : F -> Prop),
     (forall x, fin x -> Forall num_byte (fmt_f x) /\ fmt_f x <> []) ->           (* H2 *)
     (forall x, fin x -> parse_f (fmt_f x) = Some x) ->                              (* H1 *)
@@ -36,7 +25,7 @@ Theorem C20_roundtrip_partial :
     forall d : data F, writable F fin d ->
     parse_file F parse_f (write F fmt_f cm d) = Some (canon F d).
 Proof. exact roundtrip. Qed.
-Print Assumptions C20_roundtrip_partial.
+Print Assumptions C20_roundtrip.
 
 (* ... and that result is the written configuration itself (as a map from section to table; tables are returned
    as the very lists that were written) when only known sections occur and the default table is not empty. *)
@@ -47,7 +36,7 @@ Proof. exact canon_same_map. Qed.
 Print Assumptions C20_result_is_input.
 
 (* Comments never change the parsed values: with and without comments the same data is read. *)
-Theorem C20_comments_inert_partial :
+Theorem C20_comments_inert :
   forall (F : Type) (fmt_f : F -> bytes) (parse_f : bytes -> option F) (fin : F -> Prop),
     (forall x, fin x -> Forall num_byte (fmt_f x) /\ fmt_f x <> []) ->
     (forall x, fin x -> parse_f (fmt_f x) = Some x) ->
@@ -55,7 +44,7 @@ Theorem C20_comments_inert_partial :
     forall cm : comments, cm_ok cm -> forall d : data F, writable F fin d ->
     parse_file F parse_f (write F fmt_f cm d) = parse_file F parse_f (write F fmt_f no_comments d).
 Proof. exact comments_inert. Qed.
-Print Assumptions C20_comments_inert_partial.
+Print Assumptions C20_comments_inert.
 
 (* Blank lines and full-line comments are inert wherever they stand, in every file (not only written ones). *)
 Theorem C20_blank_and_comment_lines_inert :
